@@ -189,10 +189,17 @@ class H2Protocol:
                 self.priority.remove_stream(stream_id)
         except (h2.exceptions.StreamClosedError, KeyError, h2.exceptions.ProtocolError):
             # Stream or connection has closed whilst waiting to send
-            # data, not a problem - just force close it.
-            await self.stream_buffers[stream_id].close()
-            del self.stream_buffers[stream_id]
-            self.priority.remove_stream(stream_id)
+            # data, not a problem - just force close it. The buffer
+            # may already have been discarded whilst the stream was
+            # kept in (or put back into, by a PRIORITY frame) the
+            # priority tree and unblocked by a late write.
+            stream_buffer = self.stream_buffers.pop(stream_id, None)
+            if stream_buffer is not None:
+                await stream_buffer.close()
+            try:
+                self.priority.remove_stream(stream_id)
+            except priority.MissingStreamError:
+                pass
 
     async def handle(self, event: Event) -> None:
         if isinstance(event, RawData):
